@@ -5,13 +5,18 @@
 pub mod chunks;
 pub mod fw;
 pub mod gen;
+pub mod mutate;
 pub mod obs;
 pub mod refint;
+pub mod res;
 pub mod seqmodel;
 pub mod util;
 pub mod view;
 
 use fw::*;
+
+#[global_allocator]
+static ALLOC: res::CountingAlloc = res::CountingAlloc;
 use std::path::PathBuf;
 
 fn arg_val(args: &[String], k: &str) -> Option<String> {
@@ -62,6 +67,7 @@ pub fn cli_main(reg: Vec<Box<dyn Check>>) {
                 resume_after: arg_val(&args, "--resume-after").and_then(|s| s.parse().ok()),
             };
             limit_address_space(6);
+            res::enable_cap(true);
             let cx = run_worker(check.as_ref(), &a);
             std::fs::write(&a.out, serde_json::to_string(&ctx_to_json(&cx)).unwrap()).unwrap();
         }
